@@ -403,6 +403,9 @@ pub fn run(ctx: &mut Ctx) {
                 let mut o = JaxOpts::default();
                 o.distractors = vec![jax::Distractor::TagsBetweenIsA, jax::Distractor::ExtraTags];
                 variants.push((base.clone(), o.clone(), false, "other tag lines between and around the is_a lines"));
+                let mut om = JaxOpts::default();
+                om.distractors = vec![jax::Distractor::IsATrailingModifier];
+                variants.push((base.clone(), om, false, "is_a lines with a trailing modifier {source=...}"));
                 variants.push((base.clone(), o, true, "other tag lines between and around the is_a lines (transitive loader)"));
             }
             for (f, o, transitive, what) in variants {
